@@ -121,7 +121,8 @@ func From(input any) (Any, error) {
 		}
 		return value, nil
 	case *dtpb.Quantity:
-		value, err := decimal.NewFromString(v.Value.Value)
+		// nil-safe getters: a Quantity element may have no value
+		value, err := decimal.NewFromString(v.GetValue().GetValue())
 		if err != nil {
 			return nil, err
 		}
